@@ -75,6 +75,8 @@ EXTRA={
             '//@ assertbefore "uk.elements = 1" [C03] taken: item == ite(srcLeft, gSrcHead, gSrcTail) && item.owner == nil && element == item.element',
             '//@ ensures [C11] wake.one: gMoved ==> gWakeRequested == 1 && gWakeKey == destKeyName'],
  'scan': ['//@ requires free tablesize: dictSized(dsc.ds.data)', '//@ touches C17'],
+ 'restore': ['//@ ensures internal [C06,C13] restored.string: output.data == rstrOK ==> mutated && flagHasOne(newSk.flags, FLAG_KEY_TYPE_STRING) && istype(newSk.payload, []byte) && len(unbox(newSk.payload, []byte)) == len(serializedData) - 14',
+            '//@ ensures [C06] refused.inert: output.data != rstrOK ==> !mutated'],
  'hashTableScan': ['//@ touches C17'],
  'setScan': ['//@ touches C17'],
  'lmpop': ['//@ loop "for _, keyName := range keyNames" invariant [C06] nomut: !mutated'],
